@@ -25,7 +25,21 @@ deriving Repr
 
 def badObs {α} (why : String) : Except Err α := .error (.badObs why)
 
-def dedup (l : List Id) : List Id := l.foldl (fun acc x => if acc.contains x then acc else acc ++ [x]) []
+def dedup : List Id → List Id
+  | [] => []
+  | x :: r => if r.contains x then dedup r else x :: dedup r
+
+theorem mem_dedup {x : Id} : ∀ {l : List Id}, x ∈ l → x ∈ dedup l
+  | [], h => by cases h
+  | y :: r, h => by
+    unfold dedup
+    rcases List.mem_cons.mp h with rfl | h
+    · split
+      · rename_i hc; exact mem_dedup (List.contains_iff_mem.mp hc)
+      · exact List.mem_cons_self
+    · split
+      · exact mem_dedup h
+      · exact List.mem_cons_of_mem _ (mem_dedup h)
 
 /-- look every id up; `none` if one is unknown -/
 def lookupAll {α} (f : Id → Option α) : List Id → Option (List α)
